@@ -5,6 +5,7 @@ package main
 
 import (
 	"fmt"
+	"go/token"
 	"regexp"
 	"sort"
 	"strings"
@@ -844,6 +845,54 @@ func (c *Ctx) PathTable(key, fname string, target IM, render func(at ssa.Instruc
 	}
 	if n < min {
 		c.fail(key, rule, desc, why, fmt.Sprintf("%d feasible path(s), expected >= %d", n, min), n)
+		return
+	}
+	c.ok(key, rule, desc, n)
+}
+
+// NilGuardedUses (K2): every use of the result of a call matching producer as
+// a method receiver, field base or dereference is reachable from the call
+// only through a branch that establishes the result is non-nil.
+func (c *Ctx) NilGuardedUses(key, fname string, producer IM, min int, desc, why string) {
+	rule := "K2 Guarded (nil check before use)"
+	fn := c.F(fname)
+	if !c.need(key, rule, desc, fn, fname) {
+		return
+	}
+	n := 0
+	for _, in := range Instrs(fn, producer) {
+		v, ok := in.(ssa.Value)
+		if !ok || v.Referrers() == nil {
+			continue
+		}
+		r := regexp.QuoteMeta(c.P.Render(v))
+		g := G(`\(`+r+` == nil\)|\(nil == `+r+`\)`, false)
+		for _, u := range *v.Referrers() {
+			use := false
+			switch x := u.(type) {
+			case *ssa.Call:
+				if !x.Call.IsInvoke() && len(x.Call.Args) > 0 && x.Call.Args[0] == v && x.Call.Signature().Recv() != nil {
+					use = true
+				}
+			case *ssa.FieldAddr:
+				use = x.X == v
+			case *ssa.UnOp:
+				use = x.Op == token.MUL && x.X == v
+			}
+			if !use {
+				continue
+			}
+			n++
+			uu := u
+			s := &Search{P: c.P, Fn: fn, From: []ssa.Instruction{in}, Block: c.P.EdgesAsserting(g), Tgt: func(i ssa.Instruction) bool { return i == uu }}
+			if f := s.Run(); f != nil {
+				c.fail(key, rule, desc, why, fmt.Sprintf("%s is used at %s without a preceding nil test of it; path %s", c.P.Render(v), c.where(u), c.P.TraceString(f.Trace)), n)
+				return
+			}
+		}
+	}
+	if n < min {
+		c.fail(key, rule, desc, why, fmt.Sprintf("only %d use(s) found in %s, expected >= %d", n, fname, min), n)
 		return
 	}
 	c.ok(key, rule, desc, n)
